@@ -416,8 +416,8 @@ func TestVerifC04(t *testing.T) {
 			}
 			for _, q := range rel {
 				gq := q / 10
-				if gq >= nG || groupSatisfied(gq) {
-					continue // the group was satisfied before: no longer constrained
+				if gq >= nG {
+					continue
 				}
 				for _, x := range declGroup[gq] {
 					s, ok := sums[x]
@@ -431,7 +431,9 @@ func TestVerifC04(t *testing.T) {
 						if s.pol == 1 {
 							cnt += len(s.bo)
 						}
-						if cnt < s.min {
+						// under the once-satisfied policy a group that was satisfied before is no longer constrained
+						onceOK := s.pol != 0 && s.pol != 1 && (groupSatisfied(gq) || groupSatisfied(x))
+						if cnt < s.min && !onceOK {
 							h.Fail("C04:released-while-group-unsatisfied", "pod %d released but gang %d holds %d < min %d (policy %d)", q, x, cnt, s.min, s.pol)
 						}
 					}
@@ -451,7 +453,7 @@ func TestVerifC04(t *testing.T) {
 			}
 			// ---- clause 2: strict mode, failed / rolled-back member => every waiting member of the group rejected ----
 			if kind == 2 || kind == 3 {
-				if s, ok := prev[ps.g]; ok && s.init && s.strict && !groupSatisfied(ps.g) {
+				if s, ok := prev[ps.g]; ok && s.init && s.strict && !(s.pol != 0 && s.pol != 1 && groupSatisfied(ps.g)) {
 					for q, gq := range fwBefore {
 						if q == ps.id || !c04Has(declGroup[ps.g], gq) {
 							continue
